@@ -187,10 +187,12 @@ int main(int argc, char** argv)
                 for (auto const& s : P->recorder->steps)
                     fprintf(stderr,
                             "  ev%u trk%u par%d n%u part%d %s len %.17g edep %.17g E %.17g->%.17g vol "
-                            "%d->%d\n",
+                            "%d->%d pos [%.17g,%.17g,%.17g]->[%.17g,%.17g,%.17g]\n",
                             s.event, s.track, int(s.parent), s.step_count, s.particle,
                             P->action_labels.at(s.action).c_str(), s.step_length, s.edep,
-                            s.pre.energy, s.post.energy, s.pre.volume, s.post.volume);
+                            s.pre.energy, s.post.energy, s.pre.volume, s.post.volume,
+                            s.pre.pos[0], s.pre.pos[1], s.pre.pos[2], s.post.pos[0],
+                            s.post.pos[1], s.post.pos[2]);
             }
             else
             {
